@@ -208,6 +208,37 @@ pub fn sval_case(case: &Value) -> Value {
     json!({"setup":"ok","vals": out})
 }
 
+/// ty_middleware from the case: a type whose last path segment is listed is replaced by the given expression text
+fn ty_mw(case: &Value) -> Option<scale_typegen_description::type_example::rust_value::TyMiddleware> {
+    let list: Vec<(String, String)> = case["mw"]
+        .as_array()
+        .map(|a| a.iter().map(|x| (x["ident"].as_str().unwrap_or("").to_string(), x["expr"].as_str().unwrap_or("").to_string())).collect())
+        .unwrap_or_default();
+    if list.is_empty() {
+        return None;
+    }
+    Some(Box::new(move |ty, _tr| {
+        let ident = ty.path.ident()?;
+        let (_, e) = list.iter().find(|(i, _)| *i == ident)?;
+        Some(e.parse::<proc_macro2::TokenStream>().map_err(|e| anyhow::anyhow!("{e}")))
+    }))
+}
+
+/// ty_path_middleware from the case: "droproot" removes the leading `<root> ::` of a generated path
+fn path_mw(case: &Value, root: &str) -> Option<scale_typegen_description::type_example::rust_value::TyPathMiddleware> {
+    if case["pmw"].as_str() != Some("droproot") {
+        return None;
+    }
+    let root = root.to_string();
+    Some(Box::new(move |ts: proc_macro2::TokenStream| {
+        let toks: Vec<proc_macro2::TokenTree> = ts.clone().into_iter().collect();
+        match toks.first() {
+            Some(proc_macro2::TokenTree::Ident(i)) if *i == root && toks.len() > 3 => toks.into_iter().skip(3).collect(),
+            _ => ts,
+        }
+    }))
+}
+
 pub fn rval_case(case: &Value) -> Value {
     let types = match reg::from_a1(&case["reg"]) {
         Ok(t) => t,
@@ -224,16 +255,17 @@ pub fn rval_case(case: &Value) -> Value {
         .unwrap_or_else(|| vec![0]);
     let gen = crate::run_gen::observe_gen(&types, &st);
     let paths = crate::run_gen::observe_paths(&types, &st);
+    let root = case["settings"]["root"].as_str().unwrap_or("types").to_string();
     let mut out = vec![];
     for id in ids_of(case, &types) {
         for &seed in &seeds {
             let _ = drain_events();
             let r = guarded(|| {
-                scale_typegen_description::rust_value_from_seed(id, &types, &st, seed, None, None)
+                scale_typegen_description::rust_value_from_seed(id, &types, &st, seed, ty_mw(case), path_mw(case, &root))
             });
             let events = drain_events();
             let r2 = guarded(|| {
-                scale_typegen_description::rust_value_from_seed(id, &types, &st, seed, None, None)
+                scale_typegen_description::rust_value_from_seed(id, &types, &st, seed, ty_mw(case), path_mw(case, &root))
             });
             let _ = drain_events();
             let mut o = json!({"id": id, "seed": seed, "events": events, "res":"", "parse_ok": false,
